@@ -22,8 +22,9 @@ func checkC13(c *core.Ctx, r *core.Report) {
 		"(2) keying — every access of a per-organisation map (map[int64]…: allVirtualTables, aliasToIndexNames, the saved-query and dashboard stores) in a function that takes an organisation id is keyed by that parameter (or by the key of a range over the same map); " +
 		"(3) segment selection receives the caller's organisation: the org argument of FilterUnrotatedSegmentsInQuery / FilterSegmentsByTime traces back to a parameter or a field of the query information, never to a constant; " +
 		"(4) alias removal/addition changes the in-memory alias table on every success path that changed the alias file; " +
+		"(6) every deleting call of deleteIndex is given the caller's organisation (a function that selects by index name alone deletes the same-named index of every tenant); " +
 		"(5) KEYSEP — the functions that build stream ids and segment keys from (index, organisation, suffix) never concatenate two variable parts without a literal separator (ambiguous keys merge tenants)."
-	r.NotCovered = "wildcard/alias expansion semantics, prefix-named indexes, tenant-blind destructive enumerations by index name (DeleteVirtualTableSegStore, removeSegmetas(indexName) — listed as observations in DESIGN.md), data of other indexes through shared files"
+	r.NotCovered = "wildcard/alias expansion semantics, prefix-named indexes, whether the deleting functions that do receive the organisation use it on every structure (metadata.deleteTable drops the table entry of all tenants), data of other indexes through shared files"
 
 	orgFields := map[*types.Var]string{
 		c.Field(pkgWriter, "SegStore.OrgId"):              "SegStore",
@@ -423,6 +424,40 @@ func checkC13(c *core.Ctx, r *core.Report) {
 		} else {
 			r.OK("KEYSEP", construct, c.Pos(fn.Pos()), "variable parts are separated by literals or hashed separately")
 		}
+	}
+
+	// ---------------------------------------------------------------- (6) an index is deleted for one tenant only
+	{
+		del := c.Fn("pkg/es/writer", "deleteIndex")
+		orgPs := orgParamsOf(del)
+		n := 0
+		if len(orgPs) == 0 {
+			r.Undecided("DEPENDS", "writer.deleteIndex:tenant-parameter", c.Pos(del.Pos()), "deleteIndex has no organisation parameter")
+		} else {
+			org := orgPs[0]
+			for _, ci := range core.CallsIn(del) {
+				callee := ci.Common().StaticCallee()
+				if callee == nil || !core.IsRepoPkg(core.FnPkgPath(callee)) {
+					continue
+				}
+				nm := callee.Name()
+				if !(strings.HasPrefix(nm, "Delete") || strings.HasPrefix(nm, "Remove") || strings.HasPrefix(nm, "delete") || strings.HasPrefix(nm, "remove")) {
+					continue
+				}
+				n++
+				passes := false
+				for _, a := range ci.Common().Args {
+					if a == ssa.Value(org) {
+						passes = true
+					}
+				}
+				construct := fmt.Sprintf("writer.deleteIndex:%s-is-scoped-to-the-caller's-organisation", nm)
+				r.Check(passes, "DEPENDS", construct, c.Pos(ci.Pos()),
+					"the organisation of the request is passed to the deleting function",
+					fmt.Sprintf("%s selects what it deletes by index name only: deleting index X of one organisation also removes the segments / open stores of every other organisation's index X", nm))
+			}
+		}
+		r.Floor("DEPENDS", "deleting calls in deleteIndex", n, 4)
 	}
 }
 
